@@ -30,10 +30,12 @@ Inductive kerr :=
 | PublicKeyChecksum | PublicKeyLength | PrivateKeyDecrypt | PrivateKeyLength | PrivateKeyFormat.
 
 (* ---------- EncodedPk::try_from(s).is_ok() / EncodedSk::try_from(s).is_ok() ----------
-   match Base64::decode_to_vec(s, None) { Ok(b) => b.len() == 36 (resp. PRIVATE_KEY_CT_LEN), Err(_) => false } *)
+   match Base64::decode_to_vec(s, None) { Ok(b) => b.len() == 36 (resp. PRIVATE_KEY_CT_LEN), Err(_) => false }
+   The 36 is the literal tested by EncodedPk::try_from (x_kr_encoded_pk_try_len), a different literal from
+   the size of encode_public_key's buffer (x_kr_encoded_pk_len); both are read from the source. *)
 Definition pk_string_ok (s : text) : bool :=
   match b64_decode s with
-  | Some b => Nat.eqb (length b) (N.to_nat x_kr_encoded_pk_len)
+  | Some b => Nat.eqb (length b) (N.to_nat x_kr_encoded_pk_try_len)
   | None => false
   end.
 Definition sk_string_ok (s : text) : bool :=
@@ -93,15 +95,22 @@ Definition sk_as_bytes (s : text) : outcome kerr bytes :=
 Definition key32_expect {E} (raw : bytes) : outcome E bytes :=
   if Nat.eqb (length raw) 32 then Ok raw else Panic PUnwrap.
 
-(* ---------- unlock_private_key(locked_sk, password) -> Result<PrivateKey, KeyringError> ---------- *)
+(* ---------- unlock_private_key(locked_sk, password) -> Result<PrivateKey, KeyringError> ----------
+   The bounds of the three slice expressions are the literals of the SOURCE, read on every run
+   (gen/Extracted.v; today [..4], [4..36], [36..84]; pinned by C15_slice_constants). *)
+Definition ul_version_end : nat := N.to_nat x_kr_unlock_version_end.
+Definition ul_salt_lo : nat := N.to_nat x_kr_unlock_salt_lo.
+Definition ul_salt_hi : nat := N.to_nat x_kr_unlock_salt_hi.
+Definition ul_ct_lo : nat := N.to_nat x_kr_unlock_ct_lo.
+Definition ul_ct_hi : nat := N.to_nat x_kr_unlock_ct_hi.
 Definition unlock_private_key (locked : text) (pw : bytes) : outcome kerr bytes :=
   obind (sk_as_bytes locked) (fun key_bytes =>
   if negb (Nat.eqb (length key_bytes) (N.to_nat x_kr_private_key_ct_len)) then Err PrivateKeyLength else
-  obind (slice key_bytes 0 4) (fun version_aad =>                    (* &key_bytes[..4] *)
+  obind (slice key_bytes 0 ul_version_end) (fun version_aad =>       (* &key_bytes[..4] *)
   (* version_aad != PRIVATE_KEY_VERSION : slice against array, length and contents *)
   if negb (bytes_eqb version_aad x_kr_private_key_version) then Err PrivateKeyFormat else
-  obind (slice key_bytes 4 36) (fun salt =>                          (* &key_bytes[4..36] *)
-  obind (slice key_bytes 36 84) (fun ciphertext =>                   (* &key_bytes[36..84] *)
+  obind (slice key_bytes ul_salt_lo ul_salt_hi) (fun salt =>         (* &key_bytes[4..36] *)
+  obind (slice key_bytes ul_ct_lo ul_ct_hi) (fun ciphertext =>       (* &key_bytes[36..84] *)
   let key := kr_scrypt x_kr_unlock_scrypt_len pw salt in
   let nonce := zeros (N.to_nat x_kr_unlock_nonce_len) in
   obind (omap_err (fun _ => PrivateKeyDecrypt)
@@ -120,15 +129,19 @@ Definition encode_public_key (pk : bytes) : outcome kerr text :=
   obind (copy_into encoded 32 (length encoded) ck4) (fun encoded =>
   Ok (b64_encode encoded)))).
 
-(* ---------- decode_public_key(encoded_pk) -> Result<PublicKey, KeyringError> ---------- *)
+(* ---------- decode_public_key(encoded_pk) -> Result<PublicKey, KeyringError> ----------
+   Slice bounds read from the source (gen/Extracted.v; today [..32], [32..], [..4]). *)
+Definition dp_pk_end : nat := N.to_nat x_kr_decode_pk_end.
+Definition dp_ck_start : nat := N.to_nat x_kr_decode_ck_start.
+Definition dp_checksum_len : nat := N.to_nat x_kr_checksum_len.
 Definition decode_public_key (e : text) : outcome kerr bytes :=
   match b64_decode e with
   | None => Panic PUnwrap                                           (* .expect("Public key decode failed") *)
   | Some enc =>
     if Nat.ltb (length enc) (N.to_nat x_kr_public_key_len) then Err PublicKeyLength else
-    obind (slice enc 0 32) (fun pk =>                               (* &enc_pk_bytes[..32] *)
-    obind (slice_from enc 32) (fun checksum =>                      (* &enc_pk_bytes[32..] *)
-    obind (slice (p_hash P pk) 0 4) (fun exp_checksum =>            (* &exp_checksum[..4] *)
+    obind (slice enc 0 dp_pk_end) (fun pk =>                        (* &enc_pk_bytes[..32] *)
+    obind (slice_from enc dp_ck_start) (fun checksum =>             (* &enc_pk_bytes[32..] *)
+    obind (slice (p_hash P pk) 0 dp_checksum_len) (fun exp_checksum => (* &exp_checksum[..4] *)
     if negb (bytes_eqb checksum exp_checksum) then Err PublicKeyChecksum else
     key32_expect pk)))                                              (* PublicKey::try_from(pk).expect(..) *)
   end.
